@@ -384,7 +384,10 @@ class FxFn(IoFn):
                     raise Unsupported("`Result` with %d type arguments" % len(args))
                 if len(path) >= 2 and path[-2] == "io":
                     return ("res", args[0]), j
-                return mk_res(args[0], self.unit.get("result_err", "IoErr")), j
+                re_ = self.unit.get("result_err", "IoErr")
+                if re_ in self.enums and self.enums[re_].get("lean"):
+                    return ("res", args[0], self.enums[re_]["lean"], self.enum_ty(re_)), j
+                return mk_res(args[0], re_), j
         return IoFn._pty(self, toks, i)
 
     def enum_ty(self, name):
@@ -459,12 +462,15 @@ class FxFn(IoFn):
             sib = self.auto_spec(name)
         return sib
 
-    def op_for_method(self, name):
-        for o in self.fn_ops:
-            d = self.ops.get(o)
-            if d and d.get("method") == name:
-                return o, d
-        return None
+    def op_for_method(self, name, recv_ty=None):
+        cands = [(o, self.ops[o]) for o in self.fn_ops if self.ops.get(o) and self.ops[o].get("method") == name]
+        if len(cands) > 1 and recv_ty is not None:
+            typed = [(o, d) for o, d in cands if d.get("recv") and self.parse_ty(d["recv"]) == recv_ty]
+            if typed:
+                return typed[0]
+        if cands and cands[0][1].get("recv") and recv_ty is not None and self.parse_ty(cands[0][1]["recv"]) != recv_ty:
+            return None
+        return cands[0] if cands else None
 
     # ---------------------------------------------------------------- private helper methods found in the source
     def auto_spec(self, name):
@@ -821,7 +827,7 @@ class FxFn(IoFn):
             if sib.get("auto"):
                 self.auto_emit(sib, e)
             return self.sibling_call(e, sib, rp, env, k)
-        opm = self.op_for_method(nm)
+        opm = self.op_for_method(nm, env[rp].ty if rp in env else None)
         if opm is not None:
             return self.op_call(e, opm[0], opm[1], env, k)
 
@@ -868,6 +874,19 @@ class FxFn(IoFn):
             e3 = dict(env)
             e3[key] = IoVar(var.lean, var.ty, var.depth, var.mutable)
             return ("let", t, "%s.head?" % io_paren(var.lean), ("let", var.lean, "%s.drop 1" % io_paren(var.lean), k(t, ("opt", var.ty[1]), e3)))
+        if nm == "map" and len(e.args) == 1 and e.args[0].kind == "path" and len(e.args[0].path) == 2 \
+                and e.args[0].path[0] in self.enums:
+            en, vn = e.args[0].path
+            if not any(v2 == vn and len(va) == 1 for v2, va in self.enums[en]["variants"]):
+                self.err("`.map(%s::%s)`" % (en, vn), e)
+
+            def kmp(v, t, e2):
+                if t[0] == "res":
+                    return k("Except.map %s %s" % (self.enum_ctor(en, vn), io_paren(v)), ("res", self.enum_ty(en)) + tuple(t[2:]), e2)
+                if t[0] == "opt":
+                    return k("Option.map %s %s" % (self.enum_ctor(en, vn), io_paren(v)), ("opt", self.enum_ty(en)), e2)
+                self.err("`.map(path)` on %r" % (t,), e)
+            return on_recv(kmp)
         if nm == "map" and len(e.args) == 1 and e.args[0].kind == "closure":
             cl = e.args[0]
             if len(cl.params) != 1 or cl.params[0].kind != "pid":
@@ -913,7 +932,9 @@ class FxFn(IoFn):
             def kme(v, t, e2):
                 if t[0] != "res":
                     self.err("`.map_err` on %r" % (t,), e)
-                return k("Except.mapError %s.%s %s" % (p[0], p[1], io_paren(v)), ("res", t[1], p[0]), e2)
+                ety = self.enum_ty(p[0])
+                return k("Except.mapError %s %s" % (self.enum_ctor(p[0], p[1]), io_paren(v)),
+                         ("res", t[1], fx_lean_ty(ety) if len(ety) > 2 else p[0], ety), e2)
             return on_recv(kme)
         if nm == "chunks" and len(e.args) == 1:
             def kch(vs, e2):
@@ -1064,6 +1085,52 @@ class FxFn(IoFn):
         only what the arms assign)"""
         if getattr(e, "_hoisted", False):
             return IoFn.branching(self, e, env, k, want, value)
+        if e.kind == "match" and e.scrut.kind == "un" and e.scrut.op == "&" and not getattr(e, "_wb", False):
+            # `match &mut self.f { Some(Enum::V(r)) => r.op() … }`: what the arm does to the borrowed parts is written back —
+            # the arm's value is kept, then `self.f = Some(Enum::V(r))` with the current `r`
+            pth = self.path_of(e.scrut.e)
+            if pth in env:
+                def to_expr(pt):
+                    if pt.kind == "pid":
+                        if pt.name == "_":
+                            return None
+                        if pt.name == "None":
+                            return N("var", pt.pos, name="None")
+                        return N("var", pt.pos, name=pt.name)
+                    if pt.kind == "pctor":
+                        args = [to_expr(x) for x in pt.items]
+                        return None if any(a is None for a in args) else N("call", pt.pos, path=pt.name.split("::"), args=args)
+                    if pt.kind == "ptuple":
+                        items = [to_expr(x) for x in pt.items]
+                        return None if any(a is None for a in items) else N("tuple", pt.pos, items=items)
+                    return None
+                arms2 = []
+                for pats, body in e.arms:
+                    pe = to_expr(pats[0]) if len(pats) == 1 else None
+                    has_binder = pe is not None and self.pat_names_x(pats[0]) if hasattr(self, "pat_names_x") else pe is not None
+                    names = []
+                    walk(pats[0], lambda x: names.append(x.name) if x.kind == "pid" and x.name not in ("_", "None") else None)
+                    if pe is not None and names and body.tail is not None:
+                        body = N("block", body.pos,
+                                 stmts=list(body.stmts) + [N("let", body.pos, pat=N("pid", body.pos, name="arm_value", mut=False), ty=None, init=body.tail),
+                                                           N("assign", body.pos, lhs=e.scrut.e, op=None, rhs=pe)],
+                                 tail=N("var", body.pos, name="arm_value"))
+                    arms2.append((pats, body))
+                e = N("match", e.pos, scrut=e.scrut, arms=arms2)
+                e._wb = True
+        if e.kind == "match" and any(len(pats) > 1 for pats, _ in e.arms):
+            # `'@' | '#' => …`: alternatives without binders become one Lean alternative pattern
+            arms3 = []
+            for pats, body in e.arms:
+                if len(pats) > 1:
+                    if any(x.kind not in ("charlit", "lit", "ppath") for x in pats):
+                        self.err("`|` alternatives that are not literals", e)
+                    pats = [N("palt", pats[0].pos, pats=pats)]
+                arms3.append((pats, body))
+            e2_ = N("match", e.pos, scrut=e.scrut, arms=arms3)
+            if getattr(e, "_wb", False):
+                e2_._wb = True
+            e = e2_
         head = {"if": "cond", "iflet": "e", "match": "scrut"}[e.kind]
         self.n_scrut = getattr(self, "n_scrut", 0) + 1
         name = "scrut#%d" % self.n_scrut
@@ -1105,6 +1172,8 @@ class FxFn(IoFn):
             return str(p.bytes[0]), env
         if p.kind == "lit":
             return str(p.v), env
+        if p.kind == "palt":
+            return " | ".join(self.pat_lean(x, ty, env)[0] for x in p.pats), env
         if p.kind == "ppath":
             if len(p.path) == 2 and p.path[0] in self.enums and any(vn == p.path[1] and not va for vn, va in self.enums[p.path[0]]["variants"]):
                 return self.enum_ctor(p.path[0], p.path[1]), env
@@ -1767,18 +1836,32 @@ FX_OPS.update({
     "fqRecordsNew": dict(ret="fastq::Records<R>", lean_ty="χ → β"),
 })
 FX_EITHER = [("records", "Option<EitherRecordsInner<R>>"), ("reader", "Option<R>")]
+FX_OPS.update({
+    # `Iterator::next` of the two record iterators (translated in `Gen/SrcFasta.lean` / `SrcFastq.lean`; abstract here)
+    "faNext": dict(method="next", recv="fasta::Records<R>", mut=True, args=[], ret="Option<io::Result<fasta::Record>>",
+                   lean_ty="α → Option (Except IoErr γ) × α"),
+    "fqNext": dict(method="next", recv="fastq::Records<R>", mut=True, args=[], ret="Option<Result<fastq::Record, fastq::Error>>",
+                   lean_ty="β → Option (Except ε δ) × β"),
+})
 
 unit(name="SrcFastx", props="property C11", file="src/io/fastx.rs", dialect="fx",
-     generics={"R": "σ", "Chain": "χ", "Cursor": "χ", "fasta::Records": "α", "fastq::Records": "β"}, io_ops=FX_OPS,
+     generics={"R": "σ", "Chain": "χ", "Cursor": "χ", "fasta::Records": "α", "fastq::Records": "β",
+               "fasta::Record": "γ", "fastq::Record": "δ", "fastq::Error": "ε"}, io_ops=FX_OPS, result_err="Error",
      records_ops={"fasta": "faRecordsNew", "fastq": "fqRecordsNew"},
      pinned=["pub enum Kind { FASTQ, FASTA, }",
              "enum EitherRecordsInner<R: BufRead> { FASTA(fasta::Records<R>), FASTQ(fastq::Records<R>), }",
              "pub struct EitherRecords<R: BufRead> { records: Option<EitherRecordsInner<BufReader<io::Chain<io::Cursor<[u8; 1]>, R>>>>, "
-             "reader: Option<R>, }"],
+             "reader: Option<R>, }",
+             "pub enum EitherRecord { FASTA(fasta::Record), FASTQ(fastq::Record), }",
+             "pub enum Error { IO(io::Error), FASTQ(fastq::Error), }"],
      io_enums={"Kind": dict(variants=[("FASTQ", []), ("FASTA", [])]),
                # the enum over the two record iterators is the sum type of their (abstract) states
                "EitherRecordsInner": dict(variants=[("FASTA", ["fasta::Records<R>"]), ("FASTQ", ["fastq::Records<R>"])],
-                                          lean="(α ⊕ β)", ctors={"FASTA": "Sum.inl", "FASTQ": "Sum.inr"})},
+                                          lean="(α ⊕ β)", ctors={"FASTA": "Sum.inl", "FASTQ": "Sum.inr"}),
+               "EitherRecord": dict(variants=[("FASTA", ["fasta::Record"]), ("FASTQ", ["fastq::Record"])],
+                                    lean="(γ ⊕ δ)", ctors={"FASTA": "Sum.inl", "FASTQ": "Sum.inr"}),
+               "Error": dict(variants=[("IO", ["io::Error"]), ("FASTQ", ["fastq::Error"])],
+                             lean="(IoErr ⊕ ε)", ctors={"IO": "Sum.inl", "FASTQ": "Sum.inr"})},
      functions=[
          dict(name="get_kind_detailed", lean="getKindDetailed", free=True,
               header="pub fn get_kind_detailed<R: Read>( mut reader: R, ) -> std::result::Result<(" + FX_CHAIN
@@ -1805,6 +1888,11 @@ unit(name="SrcFastx", props="property C11", file="src/io/fastx.rs", dialect="fx"
               self_fields=FX_EITHER, params=[], ret="io::Result<Kind>", outs=["self.records", "self.reader"],
               ops=["readExact", "chain", "faRecordsNew", "fqRecordsNew"], siblings=["initialize"],
               theorem="RbV.Thm.GenSrcFastx.eitherKind_eq_model"),
+         dict(name="EitherRecords::next", lean="eitherNext", header="fn next(&mut self) -> Option<Self::Item>",
+              after="impl<R: BufRead> Iterator for EitherRecords<R>",
+              self_fields=FX_EITHER, params=[], ret="Option<Result<EitherRecord>>", outs=["self.records", "self.reader"],
+              ops=["readExact", "chain", "faRecordsNew", "fqRecordsNew", "faNext", "fqNext"], siblings=["initialize"],
+              theorem="RbV.Thm.GenSrcFastx.eitherNext_eq_model"),
      ])
 
 
